@@ -22,9 +22,9 @@ func init() {
 	}
 	Props["C03"] = &PropSpec{
 		Level:       "other",
-		Rules:       []string{"R07", "R02", "R09", "R43", "R18b"},
-		Explanation: "For all inputs: every output coordinate is ToGeomPoint of the intCentroid of a stored Quadrant; intCentroid/intExtent are written only from getQuadrantExtentAndCentroid, index-aligned (R07); its x and y formulas are mirror images (R02); both copies of the level arithmetic agree and use the root tile width and the constant 16 (R09); the pixel formulas have the defining shape of a regular grid anchored at the extent corner, as polynomial identities over the symbols of the code with integer quotients kept opaque (R43); per-level results own their storage (R18b).",
-		Decided:     []string{"provenance of every output coordinate (R07)", "x/y symmetry of the pixel extent and centre formulas (R02)", "level = id + log2(tile width) + log2(16) in both places (R09)", "min = rootMin + idx*span; max - min = span; centre - min = quo(span,2) added once; span = 2^(deepest-level)*res; res = quo(rootSpan, 2^deepest); address = quo(p - min, res) (R43)"},
+		Rules:       []string{"R07", "R02", "R09", "R43", "R18b", "R42", "R44", "R48"},
+		Explanation: "For all inputs: every output coordinate is ToGeomPoint of the intCentroid of a stored Quadrant; intCentroid/intExtent are written only from getQuadrantExtentAndCentroid, index-aligned (R07); its x and y formulas are mirror images (R02); both copies of the level arithmetic agree and use the root tile width and the constant 16 (R09); the pixel formulas have the defining shape of a regular grid anchored at the extent corner, as polynomial identities over the symbols of the code with integer quotients kept opaque (R43); per-level results own their storage (R18b); the extent the grid is anchored at is the bounding box of matrix 0 in x,y order (R42, R44: origin through ToXYPoint, spans of matrix-size tiles; axis order of every built-in set answered by the EPSG table); the deviation of an uneven grid is reported from one pixel on (R48).",
+		Decided:     []string{"the grid corner is the x,y-ordered origin of matrix 0 (R42, R44)", "a deviation of one pixel or more is logged, in units (R48)", "provenance of every output coordinate (R07)", "x/y symmetry of the pixel extent and centre formulas (R02)", "level = id + log2(tile width) + log2(16) in both places (R09)", "min = rootMin + idx*span; max - min = span; centre - min = quo(span,2) added once; span = 2^(deepest-level)*res; res = quo(rootSpan, 2^deepest); address = quo(p - min, res) (R43)"},
 		NotDecided:  []string{"the effect of integer truncation (grids whose extent does not divide evenly)", "the bound by the reported deviation for such grids"},
 	}
 	Props["C04"] = &PropSpec{
